@@ -1736,4 +1736,185 @@ theorem Lan.into_notation_slice_eq (l : List Move) (hl : l.length < 2 ^ 64)
   · simp [h, TRes.pure_eq]
   · simp [h, TRes.pure_eq]
 
+
+/-! ## the coordinate (LAN) READER: the `filter_map` closure of `uci.rs` -/
+
+theorem fromUTF8?_size (bs : ByteArray) (a : String) (h : String.fromUTF8? bs = some a) : a.utf8ByteSize = bs.size := by
+  unfold String.fromUTF8? at h
+  split at h
+  · cases h; rfl
+  · cases h
+
+theorem sliceBytes_size (s : String) (a b : Nat) (r : String) (h : sliceBytes s a b = some r) : r.utf8ByteSize = b - a := by
+  unfold sliceBytes at h
+  simp only at h
+  split at h
+  · cases h
+  · rename_i hb
+    split at h
+    · cases h
+    · rw [fromUTF8?_size _ _ h]
+      simp only [ByteArray.size_extract]
+      have : b ≤ s.toUTF8.size := by omega
+      omega
+
+/-- the primitive `str::get(a..b)` of the prelude is the model's `sliceBytes` -/
+theorem str.get_range_eq (s : List Char) (a b : UInt64) :
+    str.get_range s a b = (sliceBytes (String.ofList s) a.toNat b.toNat).map String.toList := by
+  unfold str.get_range sliceBytes
+  simp only []
+  split
+  · rfl
+  · split <;> rfl
+
+theorem parseSquare_lt (cs : List Char) (o : Nat) (h : parseSquare cs = some o) : o < 64 := by
+  unfold parseSquare at h
+  split at h
+  · cases h
+  · split at h
+    · rename_i f r
+      simp only at h
+      split at h
+      · cases h
+      · rename_i hf
+        split at h
+        · cases h
+        · rename_i hr
+          cases h
+          simp only [gt_iff_lt, char_lt_iff, not_or, Nat.not_lt, Char.reduceToNat] at hf hr
+          unfold mkSq
+          have : ('1' : Char).toNat = 49 := rfl
+          have : ('A' : Char).toNat = 65 := rfl
+          omega
+    · cases h
+
+/-- the square stanza of the closure: `Square::try_from(m.get(a..b)?).ok()?` -/
+theorem square_stanza {β : Type} (m : List Char) (a b : UInt64) (hab : b.toNat - a.toNat = 2) (K : Square → TRes β) :
+    ((TRes.okOr (str.get_range m a b)) >>= fun t => Square.try_from_str t >>= K) =
+      match sliceBytes (String.ofList m) a.toNat b.toNat with
+      | Option.none => .err
+      | some t => match parseSquare t.toList with
+        | Option.none => .err
+        | some o => K o.toUInt8 := by
+  rw [str.get_range_eq]
+  cases h : sliceBytes (String.ofList m) a.toNat b.toNat with
+  | none => rfl
+  | some t =>
+    have hsz := sliceBytes_size _ _ _ _ h
+    have : (String.ofList t.toList).utf8ByteSize < 2 ^ 64 := by
+      rw [String.ofList_toList, hsz, hab]; decide
+    simp only [Option.map_some, TRes.okOr_some, TRes.ok_bind, Square.try_from_str_eq _ this]
+    cases parseSquare t.toList <;> rfl
+
+theorem promo_letter {β : Type} (c : Char) (K : Option Piece → TRes β) :
+    ((if (c == 'q') then (do pure (Option.some Piece.queen))
+      else (if (c == 'r') then (do pure (Option.some Piece.rook))
+      else (if (c == 'b') then (do pure (Option.some Piece.bishop))
+      else (if (c == 'n') then (do pure (Option.some Piece.knight))
+      else (do TRes.err))))) >>= K) =
+      if c = 'q' then K (some .queen) else if c = 'r' then K (some .rook) else if c = 'b' then K (some .bishop)
+      else if c = 'n' then K (some .knight) else .err := by
+  by_cases h1 : c = 'q'
+  · subst h1; rfl
+  by_cases h2 : c = 'r'
+  · subst h2; rfl
+  by_cases h3 : c = 'b'
+  · subst h3; rfl
+  by_cases h4 : c = 'n'
+  · subst h4; rfl
+  simp [h1, h2, h3, h4]
+
+/-- the Rust-side outcome of the model's `parseUciMoveToken` (outer `none` = panic, inner `none` = token rejected) -/
+def tokenRes : Option (Option Wee.MoveQuery) → TRes MoveQuery
+  | Option.none => .panic
+  | some Option.none => .err
+  | some (some q) => .ok (mqOf q)
+
+/-- **the LAN reader** (`uci.rs`, `position … moves <m>…`: the `filter_map` closure, translated from the source:
+`m.get(0..2)?`, `Square::try_from(..).ok()?`, `m.get(2..4)?`, the optional promotion letter at `chars().nth(4)`,
+`MoveQuery::new` + `set_origin` + `set_destination` + `set_promotion`) is the model's `parseUciMoveToken`, for every text:
+`None` (token rejected) exactly when the model rejects, never a panic -/
+theorem uci.parse_move_token_eq (m : List Char) :
+    uci.parse_move_token m = tokenRes (parseUciMoveToken (String.ofList m)) := by
+  unfold uci.parse_move_token parseUciMoveToken
+  refine (square_stanza m 0 2 rfl _).trans ?_
+  have z0 : (0 : UInt64).toNat = 0 := rfl
+  have z2 : (2 : UInt64).toNat = 2 := rfl
+  have z4 : (4 : UInt64).toNat = 4 := rfl
+  rw [z0, z2]
+  cases sliceBytes (String.ofList m) 0 2 with
+  | none => rfl
+  | some a =>
+  dsimp only []
+  cases ho : parseSquare a.toList with
+  | none => rfl
+  | some o =>
+  dsimp only []
+  refine (square_stanza m 2 4 rfl _).trans ?_
+  rw [z2, z4]
+  cases sliceBytes (String.ofList m) 2 4 with
+  | none => rfl
+  | some b =>
+  dsimp only []
+  cases hd : parseSquare b.toList with
+  | none => rfl
+  | some d =>
+  dsimp only []
+  have ho64 := parseSquare_lt _ _ ho
+  have hd64 := parseSquare_lt _ _ hd
+  have hm : (String.ofList m).toList[4]? = m[4]? := by rw [String.toList_ofList]
+  have hn : iter.nth m (4 : UInt64) = m[4]? := rfl
+  rw [hm, hn]
+  cases m[4]? with
+  | none =>
+    simp only [TRes.pure_eq, TRes.ok_bind, MoveQuery.new_eq, MoveQuery.set_origin, MoveQuery.set_destination, tokenRes, mqOf,
+      Option.map_some, Option.map_none, rank_toUInt8 _ ho64, file_toUInt8 _ ho64, rank_toUInt8 _ hd64, file_toUInt8 _ hd64]
+  | some c =>
+    dsimp only []
+    refine (promo_letter c _).trans ?_
+    by_cases h1 : c = 'q'
+    · subst h1
+      simp only [TRes.pure_eq, TRes.ok_bind, MoveQuery.new_eq, MoveQuery.set_origin, MoveQuery.set_destination,
+        MoveQuery.set_promotion, tokenRes, mqOf, if_true,
+        Option.map_some, Option.map_none, rank_toUInt8 _ ho64, file_toUInt8 _ ho64, rank_toUInt8 _ hd64, file_toUInt8 _ hd64]
+    by_cases h2 : c = 'r'
+    · subst h2
+      simp only [TRes.pure_eq, TRes.ok_bind, MoveQuery.new_eq, MoveQuery.set_origin, MoveQuery.set_destination,
+        MoveQuery.set_promotion, tokenRes, mqOf, if_true,
+        Option.map_some, Option.map_none, rank_toUInt8 _ ho64, file_toUInt8 _ ho64, rank_toUInt8 _ hd64, file_toUInt8 _ hd64]
+      rfl
+    by_cases h3 : c = 'b'
+    · subst h3
+      simp only [TRes.pure_eq, TRes.ok_bind, MoveQuery.new_eq, MoveQuery.set_origin, MoveQuery.set_destination,
+        MoveQuery.set_promotion, tokenRes, mqOf, if_true,
+        Option.map_some, Option.map_none, rank_toUInt8 _ ho64, file_toUInt8 _ ho64, rank_toUInt8 _ hd64, file_toUInt8 _ hd64]
+      rfl
+    by_cases h4 : c = 'n'
+    · subst h4
+      simp only [TRes.pure_eq, TRes.ok_bind, MoveQuery.new_eq, MoveQuery.set_origin, MoveQuery.set_destination,
+        MoveQuery.set_promotion, tokenRes, mqOf, if_true,
+        Option.map_some, Option.map_none, rank_toUInt8 _ ho64, file_toUInt8 _ ho64, rank_toUInt8 _ hd64, file_toUInt8 _ hd64]
+      rfl
+    simp only [h1, h2, h3, h4, if_false]
+    rfl
+
+
+/-! ## the remaining one-liners (so that every generated function has its bridge statement) -/
+
+theorem Square.rank_file_eq (sq : Square) : Square.rank_file sq = .ok (Square.rank sq, Square.file sq) := rfl
+theorem Board.empty_map_eq : Board.empty_map = .ok (arrCells (List.replicate 64 Option.none)) := rfl
+theorem State.new_eq (s : Wee.State) :
+    State.new (boardOf s.pieces) s.turn (rightsArr (s.castleW, s.castleB)) (s.ep.map Nat.toUInt8)
+      ⟨s.halfmove.toUInt64, s.fullmove.toUInt64⟩ = .ok (stateOf s) := rfl
+theorem MoveQuery.set_origin_eq (q : MoveQuery) (sq : Square) :
+    MoveQuery.set_origin q sq = .ok { q with f_origin_rank := some (Square.rank sq), f_origin_file := some (Square.file sq) } := rfl
+theorem MoveQuery.set_destination_eq (q : MoveQuery) (sq : Square) :
+    MoveQuery.set_destination q sq = .ok { q with f_dest_rank := some (Square.rank sq), f_dest_file := some (Square.file sq) } := rfl
+/-- `MoveQuery::by_moving_from_to` on squares `< 64` is the model query with the four coordinates set -/
+theorem MoveQuery.by_moving_from_to_eq (o d : Nat) (ho : o < 64) (hd : d < 64) :
+    MoveQuery.by_moving_from_to o.toUInt8 d.toUInt8 =
+      .ok (mqOf { originRank := some (rankOf o), originFile := some (fileOf o), destRank := some (rankOf d), destFile := some (fileOf d) }) := by
+  simp only [MoveQuery.by_moving_from_to, MoveQuery.new_eq, MoveQuery.set_origin_eq, MoveQuery.set_destination_eq, TRes.ok_bind,
+    TRes.pure_eq, mqOf, Option.map_some, Option.map_none, rank_toUInt8 _ ho, file_toUInt8 _ ho, rank_toUInt8 _ hd, file_toUInt8 _ hd]
+
 end Wee.GenFns
